@@ -29,6 +29,21 @@ VERDICT = {
     ("launchpad/src/lib.rs", 38): "the flag `has_winner_selection_process_started` is written, never read: no behaviour depends on it (only the raw flags view shows it)",
     ("launchpad-locked-tokens/src/lib.rs", 44): "same write-only flag",
     ("launchpad-migration-guaranteed-tickets/src/lib.rs", 166): "the status view of an address that was never allocated returns zeros instead of an error: no property speaks about it",
+    ("launchpad-common/src/tickets.rs", 107): "equivalent in every executable build (ticket ids near usize::MAX are unreachable: arguments are below 2^32)",
+    ("launchpad-common/src/winner_selection.rs", 205): "GAP at the time of the sweep (no deployment was owned by a contract account), now killed by C15",
+    ("launchpad-guaranteed-tickets/src/lib.rs", 259): "the status view of an address that was never allocated returns zeros instead of an error: no property speaks about it",
+    ("launchpad-common/src/tickets.rs", 126): "equivalent at the level the properties speak about: the call is still rejected (storage decode error instead of the explicit message)",
+    ("launchpad-guaranteed-tickets-v2/src/lib.rs", 275): "equivalent (the surplus is 0 when the two are equal; nothing is sent)",
+    ("launchpad-guaranteed-tickets-v2/src/token_release.rs", 25): "equivalent (the default release round 0 or 1 is always in the past at the claim round, which is at least 2)",
+    ("launchpad-common/src/blacklist.rs", 30): "equivalent (a refund of 0 tickets returns early without transfer or event)",
+    ("launchpad-with-nft/src/mystery_sft.rs", 89): "asynchronous SFT set-up callback: not modelled (documented limit)",
+    ("launchpad-with-nft/src/mystery_sft.rs", 77): "asynchronous SFT set-up callback: not modelled (documented limit)",
+    ("launchpad-common/src/user_interactions.rs", 79): "dead storage: winning flags of a settled participant are left behind, no view or later step reads them",
+    ("launchpad-with-nft/src/nft_config.rs", 47): "GAP at the time of the sweep (EGLD fee with a nonce was never offered), now covered by invalid-cost probes (C14)",
+    ("launchpad-locked-tokens/src/lib.rs", 47): "GAP at the time of the sweep: the flags word after deployment was in no property's projection and the divergence then hid everything that followed; `flags` now belongs to C06, unowned differences no longer end the comparison, and m_C06 reports a claim refused for stage reasons after every step reported completion",
+    ("launchpad-common/src/random.rs", 69): "equivalent on reachable executions (min < max at every call site)",
+    ("launchpad-common/src/ongoing_operation.rs", 47): "gas bookkeeping replaced by the iteration-budget hook (trusted base)",
+    ("launchpad-locked-tokens/src/locked_launchpad_token_send.rs", 71): "equivalent on the debug VM (a direct transfer of 0 changes nothing)",
     ("launchpad-guaranteed-tickets/src/token_release.rs", 56): "GAP at the time of the sweep (v1 schedule change exactly at the confirmation start round), now killed by C13 and C17 with a concrete input",
 }
 for r in surv:
